@@ -1705,7 +1705,7 @@ LIT_DEFAULT = {"network@epoch": None, "parameters@sigma-apr": "10", "parameters@
                "cov-mat@band": "0", "dh@val": "1.02", "dh@dist": None, "vec@dx": "50.01", "cov-mat#text": "25"}
 # slots where every real number is semantically fine, so a lexically valid literal must be accepted
 LIT_FREE = ("network@epoch", "point@y", "point@z", "obs@from_dh", "direction@to_dh", "dh@val", "vec@dx", "direction@val",
-            "angle@val", "azimuth@val", "z-angle@val")
+            "angle@val", "azimuth@val")
 
 
 def lit_doc(slot, s):
@@ -1764,7 +1764,8 @@ def w4_literals(X):
         ok, must = lex_ok(typ, lit), lex_must(typ, lit)
         ck.case(("w4", slot, "lexically-valid" if ok else "lexically-invalid", c))
         if c == "accepted":
-            if not ok and not (lit.strip() == "" and LIT_DEFAULT[slot] is None):
+            optional = slot.split("@")[-1] not in REQUIRED.get(slot.split("@")[0], ()) and "#" not in slot
+            if not ok and not (lit.strip() == "" and optional):
                 F.add("silent-accept:bad-number:%s" % slot, "%s=%r is not a %s literal of the documented form, yet the document "
                       "is accepted" % (slot, lit, typ), mkwit("parse", r.doc, kind="gkf", mode="lines", slot=slot, literal=lit))
             elif not ok:
@@ -1795,6 +1796,8 @@ def w5_chunked(X):
     for k, d in enumerate(base[:X.n(6, 30)]):
         ms = list(mutations(X.seed + k, "c", d, 14, 6, 6))
         for lab, m in ms:
+            if lab[0] == "number" and is_huge(lab[2]) and lab[1] in X.slot_hang:
+                continue               # the hang of this slot is reported already
             if len(m) < 20000:
                 docs.append(("mutated:" + lab[0], m))
         cut = int(rng.integers(10, len(d)))
